@@ -352,17 +352,27 @@ def trlog2(T, check=True, twist=False):
             else:
                 return np.zeros((3, 3))
         else:
-            if twist:
-                return base.vexa(scipy.linalg.logm(T))
+            # closed form: theta from the rotation part, v = V^-1 t where
+            # V^-1 = (theta/2) cot(theta/2) I - (theta/2) skew(1)
+            theta = math.atan2(T[1, 0], T[0, 0])
+            t = T[:2, 2]
+            if theta == 0:
+                v = t
             else:
-                return scipy.linalg.logm(T)
+                half = theta / 2
+                v = half / math.tan(half) * t + half * np.r_[t[1], -t[0]]
+            if twist:
+                return np.r_[v, theta]
+            else:
+                return base.skewa(np.r_[v, theta])
 
     elif isrot2(T, check=check):
         # SO(2) rotation matrix
+        theta = math.atan2(T[1, 0], T[0, 0])
         if twist:
-            return base.vex(scipy.linalg.logm(T))
+            return np.r_[theta]
         else:
-            return scipy.linalg.logm(T)
+            return base.skew(theta)
     else:
         raise ValueError("Expect SO(2) or SE(2) matrix")
 # ---------------------------------------------------------------------------------------#
